@@ -145,7 +145,7 @@ impl Callable for Index {
                 .ok_or_else(|| err_msg("NativeObject does not implement Indexible"))?,
             _ => bail!("type mismatch"),
         };
-        obj.get(index)?.value_of(ctx)
+        obj.get(index)?.real_value_of(ctx)
     }
 }
 
